@@ -829,6 +829,7 @@ def replay(ctx: Ctx, payload: dict) -> SuiteResult:
 
 
 if __name__ == "__main__":
+    import gentie
     setup_repo_path()
     sys.exit(run_check(
         "C14", lean_modules=["Pamiq.Props.C14"],
@@ -837,7 +838,7 @@ if __name__ == "__main__":
                            "Pamiq.Models.sync_exact", "Pamiq.Models.load_syncs_all",
                            "Pamiq.Models.inference_fresh", "Pamiq.Models.reachable_inv",
                            "Pamiq.Models.run_completes"],
-        suites=[suite_corpus, suite_malformed, suite_exhaustive, suite_random, suite_launch],
+        suites=[gentie.suite_for("C14"), suite_corpus, suite_malformed, suite_exhaustive, suite_random, suite_launch],
         search=search, replay=replay,
         assumptions=["parameters are abstracted to one integer version per side; sync_impl, "
                      "save_state and load_state of the harness models copy / write / read it",
